@@ -1,83 +1,48 @@
 package vm_test
 
 import (
-	"fmt"
-	"strings"
-	"sync"
+	"reflect"
 	"testing"
 
 	"github.com/mattn/anko/env"
-	"github.com/mattn/anko/parser"
 	"github.com/mattn/anko/vm"
 )
 
-// c14Source builds a goroutine-free program that defines and calls functions
-// with many parameters and variadic functions of several arities.
-// It returns the source and the value the program must yield.
-func c14Source() (string, int64) {
-	var b strings.Builder
-	var want int64
-	b.WriteString("total = 0\n")
-	for n := 5; n <= 12; n++ {
-		params := make([]string, n)
-		args := make([]string, n)
-		for i := range params {
-			params[i] = fmt.Sprintf("p%d", i)
-			args[i] = fmt.Sprint(i + 1)
-			want += int64(i + 1)
-		}
-		fmt.Fprintf(&b, "func f%d(%s) { return %s }\n", n, strings.Join(params, ", "), strings.Join(params, " + "))
-		fmt.Fprintf(&b, "total += f%d(%s)\n", n, strings.Join(args, ", "))
-	}
-	for n := 1; n <= 8; n++ {
-		params := make([]string, n)
-		args := make([]string, n+1)
-		for i := range params {
-			params[i] = fmt.Sprintf("p%d", i)
-		}
-		for i := range args {
-			args[i] = fmt.Sprint(i + 1)
-		}
-		// last parameter is variadic and receives two values
-		want += 2
-		fmt.Fprintf(&b, "func v%d(%s...) { return len(p%d) }\n", n, strings.Join(params, ", "), n-1)
-		fmt.Fprintf(&b, "total += v%d(%s)\n", n, strings.Join(args, ", "))
-	}
-	b.WriteString("total\n")
-	return b.String(), want
-}
+// A Go function parameter conversion failure must end the evaluation of the
+// operands after it: probe "b" must not run when operand "a" cannot be
+// converted to the first parameter type.
+func TestC07DemoGoParamConversionStopsEvaluation(t *testing.T) {
+	var log []string
+	e := env.NewEnv()
+	_ = e.Define("p", func(tag string, v interface{}) interface{} {
+		log = append(log, tag)
+		return v
+	})
+	called := false
+	_ = e.Define("host3", func(a string, b int64, c int64) int64 {
+		called = true
+		return b + c
+	})
 
-// One tree, parsed once, is executed from many goroutines at once, each run
-// in its own fresh environment. Run with -race: the runs must not share any
-// mutable state, and every run must yield the value it yields alone.
-func TestC14ConcurrentRunsOfSharedTree(t *testing.T) {
-	src, want := c14Source()
-	stmt, err := parser.ParseSrc(src)
-	if err != nil {
-		t.Fatal(err)
+	_, err := vm.Execute(e, nil, `host3(p("a", [1, 2]), p("b", 2), p("c", 3))`)
+	if err == nil {
+		t.Fatalf("expected a conversion error, got none (called=%v)", called)
+	}
+	if called {
+		t.Fatalf("host3 must not be called")
+	}
+	want := []string{"a"}
+	if !reflect.DeepEqual(log, want) {
+		t.Fatalf("probe log = %v, want %v (err: %v)", log, want, err)
 	}
 
-	const workers = 8
-	start := make(chan struct{})
-	results := make([]interface{}, workers)
-	errs := make([]error, workers)
-	var wg sync.WaitGroup
-	for w := 0; w < workers; w++ {
-		wg.Add(1)
-		go func(w int) {
-			defer wg.Done()
-			<-start
-			results[w], errs[w] = vm.Run(env.NewEnv(), nil, stmt)
-		}(w)
+	// sanity: the well typed call evaluates a, b, c once each in order
+	log = nil
+	v, err := vm.Execute(e, nil, `host3(p("a", "s"), p("b", 2), p("c", 3))`)
+	if err != nil || v != int64(5) {
+		t.Fatalf("unexpected result %v, %v", v, err)
 	}
-	close(start)
-	wg.Wait()
-
-	for w := 0; w < workers; w++ {
-		if errs[w] != nil {
-			t.Errorf("worker %d: error %v", w, errs[w])
-		} else if results[w] != want {
-			t.Errorf("worker %d: value %#v, want %v", w, results[w], want)
-		}
+	if want := []string{"a", "b", "c"}; !reflect.DeepEqual(log, want) {
+		t.Fatalf("probe log = %v, want %v", log, want)
 	}
 }
